@@ -1,4 +1,5 @@
 import Gofasta.Model.Snps
+import Gofasta.Props.C03
 import Gofasta.Lemmas.SortSpec
 import Gofasta.Model.Variants
 /-
@@ -101,6 +102,64 @@ theorem insert_keys (k : Snp) : ∀ (m : List (Snp × Nat)),
 
 /-- non-vacuity: two of three rows carry (2,C,T) -/
 example : countOf (2, 67, 84) (countAll [[(2, 67, 84)], [(1, 65, 71), (2, 67, 84)], []]) = 2 := by decide
+
+/-- a row whose positions are strictly ascending mentions a mutation at most once -/
+theorem count_le_one_of_ascending (k : Snp) : ∀ (row : List Snp), (row.map (·.1)).Pairwise (· < ·) →
+    row.count k = if k ∈ row then 1 else 0 := by
+  intro row
+  induction row with
+  | nil => intro _; simp
+  | cons s t ih =>
+    intro h
+    simp only [List.map_cons, List.pairwise_cons] at h
+    have iht := ih h.2
+    by_cases hs : s = k
+    · subst hs
+      have hnot : s ∉ t := by
+        intro hm
+        have := h.1 s.1 (List.mem_map.2 ⟨s, hm, rfl⟩)
+        omega
+      simp [List.count_cons, iht, hnot]
+    · have h1 : (s == k) = false := by simpa using hs
+      have h2 : (k ∈ s :: t) ↔ k ∈ t := by
+        simp only [List.mem_cons]
+        constructor
+        · rintro (h | h)
+          · exact absurd h.symm hs
+          · exact h
+        · exact Or.inr
+      simp only [List.count_cons, h1, iht, h2]
+      simp
+
+theorem count_flatten (k : Snp) : ∀ (rows : List (List Snp)), (∀ r ∈ rows, (r.map (·.1)).Pairwise (· < ·)) →
+    (rows.flatten).count k = (rows.filter fun r => r.contains k).length := by
+  intro rows
+  induction rows with
+  | nil => intro _; rfl
+  | cons r t ih =>
+    intro h
+    simp only [List.flatten_cons, List.count_append, List.filter_cons]
+    rw [ih (fun x hx => h x (List.mem_cons_of_mem _ hx)), count_le_one_of_ascending k r (h r (List.mem_cons_self))]
+    by_cases hk : k ∈ r
+    · have : r.contains k = true := by simpa using hk
+      simp [hk, this]; omega
+    · have : r.contains k = false := by simpa using hk
+      simp [hk, this]
+
+/-- **C13.matches_per_sequence (snps)** — the count behind a frequency is the number of query sequences whose
+per-sequence row contains the mutation: for every reference and every alignment over the accepted alphabet -/
+theorem snps_count_is_sequences (hard : Bool) (ref : List Nat) (qs : List (List Nat)) (k : Snp)
+    (hr : C03.Accepted hard ref) (hq : ∀ q ∈ qs, C03.Accepted hard q) :
+    countOf k (countAll (qs.map fun q => snpsRow hard ref q)) =
+      ((qs.map fun q => snpsRow hard ref q).filter fun row => row.contains k).length := by
+  unfold countAll
+  rw [countAll_is_occurrences k _ []]
+  have h0 : countOf k [] = 0 := rfl
+  rw [h0, Nat.zero_add]
+  apply count_flatten
+  intro r hrm
+  obtain ⟨q, hqm, rfl⟩ := List.mem_map.1 hrm
+  exact C03.ascending hard ref q hr (hq q hqm)
 
 /-- the aggregate comparator (position, then query allele) is a strict weak order -/
 theorem snpLt_swo : SWO snpLt := by
